@@ -14,7 +14,7 @@ WARM = ["daily"]
 RULE = (
     "Cases: a parameter-built daily or billing model (random shape, split layout, calendar maps) x a reporting frame carrying "
     "usage with generated patterns of missing temperature (single days, blocks, +-inf) and missing usage (single days, "
-    "blocks), daily-frequency input or billing reads, 7 zones; billing models additionally under monthly and bimonthly "
+    "blocks; whole-frame patterns: no temperature at all, temperature exactly where usage is absent), daily-frequency input or billing reads, 7 zones; billing models additionally under monthly and bimonthly "
     "aggregation. Oracle: row by row isfinite(predicted) == isfinite(observed); a row whose input temperature is missing has "
     "neither; sum(predicted) - sum(observed) == sum(predicted - observed); aggregated period totals equal the masked daily "
     "totals. Non-trivial: at least one row with temperature missing and usage present AND at least one row with usage "
@@ -42,6 +42,8 @@ def cases(draw):
     c["nan_T_block"] = draw(st.one_of(st.none(), st.tuples(st.integers(0, 380), st.integers(2, 40))))
     c["nan_obs"] = draw(st.lists(st.integers(0, 399), max_size=8))
     c["nan_obs_block"] = draw(st.one_of(st.none(), st.tuples(st.integers(0, 380), st.integers(2, 40))))
+    # whole-frame patterns: no temperature at all, or temperature exactly where usage is absent (no complete day anywhere)
+    c["pattern"] = draw(st.sampled_from([None, None, None, None, "no_temperature", "complementary", "complementary_blocks"]))
     if c["input"] == "reads":
         c["lengths"] = draw(st.lists(st.integers(26, 34), min_size=2, max_size=13))
         c["nan_reads"] = draw(st.lists(st.integers(0, 12), max_size=2))
@@ -88,6 +90,14 @@ def build(c):
             a, ln = c["nan_obs_block"]
             o[a: a + ln] = np.nan
         df["observed"] = o
+    pat = c.get("pattern")
+    if pat == "no_temperature":
+        df["temperature"] = np.nan
+    elif pat in ("complementary", "complementary_blocks") and c["input"] == "daily":
+        k = np.arange(n)
+        sel = (k % 2 == 0) if pat == "complementary" else ((k // 9) % 2 == 0)
+        df.loc[df.index[sel], "temperature"] = np.nan
+        df.loc[df.index[~sel], "observed"] = np.nan
     cls = em.BillingReportingData if fam == "billing" else em.DailyReportingData
     return cls(df, is_electricity_data=True), df
 
@@ -105,7 +115,7 @@ def judge(c, rec):
         rec.case(c, False, ["family=" + fam, "input-rejected"])
         return
     out = m.predict(data)
-    cls = ["family=" + fam, "input=" + c["input"]]
+    cls = ["family=" + fam, "input=" + c["input"], "pattern=" + str(c.get("pattern"))]
     if "observed" not in out or len(out) == 0:
         rec.case(c, False, cls + ["no-usage-or-empty"])
         return
